@@ -7,6 +7,12 @@ def _never(_name):
     return False
 
 
+def _site(exc):
+    from mc import core
+
+    return core.exc_site(exc)
+
+
 class LexRun:
     """One complete run of CLexer over a text.
 
@@ -17,9 +23,15 @@ class LexRun:
     calls  : number of token() calls made (the last one returned None, unless
              the call budget was exhausted -> terminated is False)
     final_filename : CLexer.filename after end of input
+    exc    : None, or "ExcType@module.function" (innermost pycparser frame) of
+             an exception that escaped CLexer.input()/token(); the run stops
+             there (terminated stays False).  The error callback used here
+             never raises, so any exception is the lexer's own.
+    exc_repr : repr of that exception
     """
 
-    __slots__ = ("events", "toks", "errs", "calls", "terminated", "final_filename")
+    __slots__ = ("events", "toks", "errs", "calls", "terminated", "final_filename",
+                 "exc", "exc_repr")
 
 
 def run_lexer(text, filename="", is_type=None, max_calls=None):
@@ -34,13 +46,29 @@ def run_lexer(text, filename="", is_type=None, max_calls=None):
         errs.append((msg, line, column))
         ev.append(("err", msg, line, column))
 
-    lx = CLexer(on_err, lambda: None, lambda: None, is_type or _never)
-    lx.input(text, filename)
+    r.exc = r.exc_repr = None
+    r.terminated = False
+    r.calls = 0
+    r.final_filename = filename
+    try:
+        lx = CLexer(on_err, lambda: None, lambda: None, is_type or _never)
+        lx.input(text, filename)
+    except Exception as e:  # noqa
+        r.exc, r.exc_repr = _site(e), repr(e)[:200]
+        return r
     budget = len(text) + 2 if max_calls is None else max_calls
     calls = 0
-    r.terminated = False
     while calls < budget:
-        t = lx.token()
+        try:
+            t = lx.token()
+        except Exception as e:  # noqa
+            r.exc, r.exc_repr = _site(e), repr(e)[:200]
+            r.calls = calls + 1
+            try:
+                r.final_filename = lx.filename
+            except Exception:  # noqa
+                pass
+            return r
         calls += 1
         if t is None:
             r.terminated = True
